@@ -8,6 +8,7 @@ import (
 	"fmt"
 	"math/big"
 	"sort"
+	"strconv"
 	"strings"
 )
 
@@ -29,18 +30,43 @@ type Lin struct {
 	coefs []int64
 }
 
+type termKey struct {
+	op         string
+	w          int
+	val        uint64
+	name       string
+	p1, p2     int
+	n          int
+	a0, a1, a2 int
+	rest       string
+}
+
 var (
 	tcount int
-	hc     = map[string]*Term{}
+	hc     = map[termKey]*Term{}
 )
 
 func mk(op string, w int, val uint64, name string, p1, p2 int, args ...*Term) *Term {
-	var sb strings.Builder
-	fmt.Fprintf(&sb, "%s|%d|%d|%s|%d|%d", op, w, val, name, p1, p2)
-	for _, a := range args {
-		fmt.Fprintf(&sb, "|%d", a.id)
+	k := termKey{op: op, w: w, val: val, name: name, p1: p1, p2: p2, n: len(args)}
+	switch {
+	case len(args) > 3:
+		var sb strings.Builder
+		for _, a := range args {
+			sb.WriteString(strconv.Itoa(a.id))
+			sb.WriteByte('|')
+		}
+		k.rest = sb.String()
+	default:
+		if len(args) > 0 {
+			k.a0 = args[0].id
+		}
+		if len(args) > 1 {
+			k.a1 = args[1].id
+		}
+		if len(args) > 2 {
+			k.a2 = args[2].id
+		}
 	}
-	k := sb.String()
 	if t, ok := hc[k]; ok {
 		return t
 	}
@@ -56,11 +82,11 @@ func mask(w int) uint64 {
 	}
 	return (uint64(1) << uint(w)) - 1
 }
-func C(w int, v uint64) *Term     { return mk("const", w, v&mask(w), "", 0, 0) }
-func CI(v int64) *Term            { return C(64, uint64(v)) }
+func C(w int, v uint64) *Term      { return mk("const", w, v&mask(w), "", 0, 0) }
+func CI(v int64) *Term             { return C(64, uint64(v)) }
 func Var(name string, w int) *Term { return mk("var", w, 0, name, 0, 0) }
-func ArrVar(name string) *Term    { return mk("var", -1, 0, name, 0, 0) }
-func Select(a, i *Term) *Term     { return mk("select", 8, 0, "", 0, 0, a, i) }
+func ArrVar(name string) *Term     { return mk("var", -1, 0, name, 0, 0) }
+func Select(a, i *Term) *Term      { return mk("select", 8, 0, "", 0, 0, a, i) }
 
 var True = mk("true", 0, 0, "", 0, 0)
 var False = mk("false", 0, 0, "", 0, 0)
